@@ -18,6 +18,10 @@ pub fn units(tier: &str, _seed: u64) -> Vec<String> {
         v.push(unit(&[("shape", s), ("n", "1"), ("fs", "PEN"), ("k", "sym"), ("a", "sym")]));
     }
     v.push(unit(&[("shape", shapes[1]), ("n", "2"), ("fs", "PEN"), ("k", "sym"), ("a", "sym"), ("ord", "rev")]));
+    // both electricity sources (two rows in the by-source tables), under two iteration orders of the maps
+    for ord in ["ins", "rev"] {
+        v.push(unit(&[("shape", "U:CAL:ELECTRICIDAD;P:EL_INSITU;P:EL_COGEN;U:COGEN:GASNATURAL;U:ACS:GASNATURAL"), ("n", "1"), ("fs", "PEN"), ("k", "0"), ("a", "1"), ("ord", ord)]));
+    }
     // a very large and a very small building (GWh and fractions of a Wh): every rendering still states the result
     v.push(unit(&[("shape", shapes[1]), ("n", "1"), ("fs", "PEN"), ("k", "0"), ("a", "1"), ("dom", "900000:1000000")]));
     v.push(unit(&[("shape", shapes[1]), ("n", "1"), ("fs", "PEN"), ("k", "0"), ("a", "sym"), ("dom", "0.00001:0.01")]));
@@ -233,6 +237,31 @@ pub fn scenario(u: &Unit) -> String {
         slot(&format!("b_by_srv.{}.ren", srv), v.first().copied(), r.ren, 2);
         slot(&format!("b_by_srv.{}.nren", srv), v.get(1).copied(), r.nren, 2);
         slot(&format!("b_by_srv.{}.co2", srv), v.get(3).copied(), r.co2, 2);
+    }
+    // every key / value table ("* por ...:" followed by "- label: value" rows) lists its rows in ascending order of
+    // the label, whatever the iteration order of the maps
+    {
+        let lines: Vec<&str> = plain.lines().collect();
+        let mut i = 0;
+        let mut tbl = 0;
+        while i < lines.len() {
+            if lines[i].trim_start().starts_with("* por ") {
+                let mut labels: Vec<String> = vec![];
+                let mut j = i + 1;
+                while j < lines.len() && lines[j].starts_with("- ") {
+                    labels.push(lines[j][2..].split(':').next().unwrap_or("").trim().to_string());
+                    j += 1;
+                }
+                let mut sorted = labels.clone();
+                sorted.sort();
+                sorted.dedup();
+                ob(&format!("plain.table[{}].sorted-unique", tbl), if sorted == labels { t() } else { f() });
+                tbl += 1;
+                i = j;
+            } else {
+                i += 1;
+            }
+        }
     }
     // ---------------- XML
     match xml_well_formed(&xml) {
